@@ -91,10 +91,10 @@ checks["C11"]=dict(
    technique="exact-argument rules on the format strings that write JSON keys (key positions recognised between quotes) + sibling agreement with Go's omission rule + traversal-completeness of the from_json generator",
    design="§3.C01/C11")
 checks["C04"]=dict(
-   text="Ten structural clauses, each a necessary condition of 'never panics / never hangs' (a reported site is a potential crash; every site reported on the pinned tree was triaged: 44 fixed in /repo, 7 recorded as findings): bounded recursion and loops through references (visited set filled by the function / depth bound / leaf-kind test; closures included); no explicit panic reachable from the pipeline entry points; no unchecked single-value type assertion on `any` values; no pointer lookup used or handed on with its found-flag discarded; guarded constant indexing at the JSON-family parser frontier; every one of the 566 accesses to a kind-specific member of ast.Type (AsStruct(), .Struct.…) dominated by a test that the same access path has that kind — intraprocedurally (conditions, switch, loop conditions, exit guards, boolean locals, kind equality), through summaries of cog's own predicates and resolvers, or at every call site up to five levels up; enum members are scalars by construction; consistent key derivation on probed-and-filled sets.",
-   note="Trusted: the AST-level call graph (static calls, class-hierarchy interface calls, func-typed fields by stored values; func literals attributed to their enclosing function); text/template recovers panics of template functions; the reviewed tables (20 kind accesses, assertions, lookups, recursion edges — each with its reason; table entries are beliefs confirmed by reading, not re-derived). NOT decided: index out of range on IR slices and CUE values, nil dereference of pointers other than the kind members, stack depth on deeply nested acyclic input, time/space blow-up, panics inside third-party libraries.",
+   text="Eleven structural clauses, each a necessary condition of 'never panics / never hangs' (a reported site is a potential crash; every site reported on the pinned tree was triaged: 50 fixed in /repo, 7 recorded as findings): bounded recursion and loops through references (visited set filled by the function / depth bound / leaf-kind test; closures included); no explicit panic reachable from the pipeline entry points; no unchecked single-value type assertion on `any` values; no pointer lookup used or handed on with its found-flag discarded; guarded constant indexing at the JSON-family parser frontier; every one of the 566 accesses to a kind-specific member of ast.Type (AsStruct(), .Struct.…) dominated by a test that the same access path has that kind — intraprocedurally (conditions, switch, loop conditions, exit guards, boolean locals, kind equality), through summaries of cog's own predicates and resolvers, or at every call site up to five levels up; enum members are scalars by construction; every one of the 180 constant indexes into slices / strings dominated by a length test, an IR invariant checked on its producers (enums have members, unions have branches, constraints carry an argument) or a reviewed reason; consistent key derivation on probed-and-filled sets.",
+   note="Trusted: the AST-level call graph (static calls, class-hierarchy interface calls, func-typed fields by stored values; func literals attributed to their enclosing function); text/template recovers panics of template functions; the reviewed tables (20 kind accesses, assertions, lookups, recursion edges — each with its reason; table entries are beliefs confirmed by reading, not re-derived). NOT decided: non-constant indexes, IR given literally in configuration files, nil dereference of pointers other than the kind members, stack depth on deeply nested acyclic input, time/space blow-up, panics inside third-party libraries.",
    technique="call-graph SCC + guard recognition on the AST (recursion/loops), call-graph reachability (panics), dominance of comma-ok / kind tests with interprocedural predicate summaries and call-site propagation (assertions, kind accesses), reviewed exemption tables",
-   design="§3.C04, §12.1, §14")
+   design="§3.C04, §12.1, §13.2, §13.3")
 checks["C08"]=dict(
    text="Generator-side necessary conditions decided on the parsed Go templates and the Go helper they share: the recursive validation and strict-decoding templates reach every depth (array/map value types, nullable values, every field, referenced structs and scalar aliases) and end in an uncommented sentinel; the pruning predicate resolvesToConstraints agrees with the template kind by kind; every constraint operator a parser produces is translated; the strict decoder consumes each declared key, reports every remaining key and emits the 'missing'/'null' errors under exactly Required∧Default==nil / Required∧¬Nullable.",
    note="Trusted: text/template/parse trees; the emitted Go text is not parsed. 'If and only if' on concrete documents, error paths and encoding/json behaviour are not decided (they need generated code to run).",
